@@ -2,7 +2,7 @@
    Only statements here; every proof is `exact <lemma>` into Proofs/CachesFacts.v.
    `run_ops step st ops` = list of outputs of the operation sequence, `final step st ops` = state reached.
    All theorems quantify over EVERY operation sequence `ops` (and every type D of the unused/used duration). *)
-From Verif Require Import Base.Prelude Model.Caches Model.CachesSpec Proofs.CachesFacts.
+From Verif Require Import Base.Prelude Model.Caches Model.CachesSpec Model.SharedSteps Proofs.CachesFacts Proofs.SharedFacts.
 
 (* ---------------------------------------------------------------- LRUCache *)
 (* queue and dict stay a bijection, at most max_size entries, in every reachable state *)
@@ -158,6 +158,32 @@ Example C14_disk_bound_instance :
          [DOp (Put 0 1 tt); Reopen (Some 2); DOp (Put 1 2 tt); DOp (Put 2 3 tt)].
 Proof. repeat constructor. Qed.
 
+(* disk_bound WITHOUT the hypothesis on the Reopens.  `settled true m0 ops` scans the history: the bound is
+   guaranteed at creation, after every put and after clear; get / in / len keep it; a Reopen keeps it iff it held
+   and the new max_size is not smaller (a DiskCache re-opened with a smaller max_size does hold more files than
+   max_size until the next put - that is what the code does, the constructor deletes nothing). *)
+Theorem C14_disk_bound_general : forall wl ls, (wl = true -> 1 <= ls) ->
+  forall D m0 (ops : list (dop D)),
+  let st := final (disk_step wl ls true) (disk_open [] 0 m0) ops in
+  d_max st = snd (settled true m0 ops)
+  /\ (fst (settled true m0 ops) = true -> forall n, d_max st = Some n -> length (d_files st) <= n).
+Proof. exact disk_bound_general. Qed.
+Print Assumptions C14_disk_bound_general.
+(* the scan is not vacuous: here the bound is lost by the Reopen with a smaller max_size and regained by the put *)
+Example C14_disk_bound_general_instance :
+  fst (settled true (Some 3) [DOp (Put 0 1 tt); DOp (Put 1 2 tt); Reopen (Some 1)]) = false
+  /\ fst (settled true (Some 3) [DOp (Put 0 1 tt); DOp (Put 1 2 tt); Reopen (Some 1); DOp (Put 2 3 tt); DOp (Get 0)]) = true.
+Proof. split; reflexivity. Qed.
+
+(* after ANY history the bound holds from the next put on, until the directory is re-opened again *)
+Theorem C14_disk_bound_after_put : forall wl ls, (wl = true -> 1 <= ls) ->
+  forall D m0 (ops1 ops2 : list (dop D)) k v d,
+  (forall o, In o ops2 -> match o with Reopen _ => False | DOp _ => True end) ->
+  let st := final (disk_step wl ls true) (disk_open [] 0 m0) (ops1 ++ DOp (Put k v d) :: ops2) in
+  forall n, d_max st = Some n -> length (d_files st) <= n.
+Proof. exact disk_bound_after_put. Qed.
+Print Assumptions C14_disk_bound_after_put.
+
 (* ---------------------------------------------------------------- the code BEFORE the fixes (models *_v0 /
    guard=false / fixed=false): the full no-raise statements were refuted by these witnesses, which were replayed
    on the real code, repaired by the `fix:` commits, and are replayed on every run by the harness *)
@@ -183,3 +209,125 @@ Proof.
   reflexivity.
 Qed.
 Print Assumptions C14_disk_no_raise_refuted_before_fix.
+
+(* ---------------------------------------------------------------- shared=True: several clients (processes) *)
+(* Model/SharedSteps.v: every call on the managed dict / list and every lock acquire / release is one atomic
+   step; `reachable code (init d0 progs) g` = g is reached by SOME interleaving of the steps of the clients
+   i = 0, 1, 2, ... (any number), client i issuing the operations `progs i` of the REPAIRED code (lru_code,
+   hyb_code); c_done = the (operation, result) pairs a client has obtained, most recent first.  The small-step
+   model is tied to the real code on every run: the harness explores ALL schedules of two clients with its step
+   scheduler and Coq replays each schedule on this model (Run_C14.conc_small).
+
+   shared_linearizable: in every complete interleaved history there is a sequential order h of the operations
+   that take the lock (put, get, clear), keeping each client's own order, such that the managed objects are the
+   state the SEQUENTIAL model (lru_step / hyb_step: all theorems above apply to it) reaches on h, every client
+   got exactly the results the sequential run of h gives it, and every lock-free result (`in`, `len`) is the
+   answer on managed objects that a state of that sequential run, or an intermediate content of one of its
+   operations, exhibits (lockfree_ok; made explicit by *_lockfree_values). *)
+Theorem C14_shared_lru_linearizable : forall D mx, 1 <= mx ->
+  forall progs g, reachable (lru_code D mx) (init lru_empty progs) g -> complete g ->
+  exists h : list (nat * op D),
+    Forall (fun x => lru_locked D (snd x) = true) h
+    /\ g_lock g = None
+    /\ g_data g = st_from (lru_step mx) lru_empty h
+    /\ forall i,
+         map fst (rev (c_done (g_cl g i))) = progs i
+         /\ filter (fun x => lru_locked D (fst x)) (rev (c_done (g_cl g i)))
+            = SharedSteps.proj i (res_from (lru_step mx) lru_empty h)
+         /\ Forall (lockfree_ok lru (op D) (lru_step mx) (lru_locked D) (lru_read D) lru_vis lru_empty h)
+                   (c_done (g_cl g i)).
+Proof. exact lru_shared_linearizable. Qed.
+Print Assumptions C14_shared_lru_linearizable.
+
+(* in EVERY reachable interleaved state (also in the middle of operations) no client has seen an exception *)
+Theorem C14_shared_lru_no_raise : forall D mx, 1 <= mx ->
+  forall progs g i, reachable (lru_code D mx) (init lru_empty progs) g ->
+  Forall (fun x => is_raised (snd x) = false) (c_done (g_cl g i)).
+Proof. exact lru_shared_no_raise. Qed.
+Print Assumptions C14_shared_lru_no_raise.
+
+(* in EVERY reachable interleaved state: a client is inside a critical section iff it owns the lock; with the lock
+   free the managed objects are a state of the sequential model (so lru_inv holds); and at every moment the
+   dict has no duplicate keys and at most max_size entries *)
+Theorem C14_shared_lru_inv : forall D mx, 1 <= mx ->
+  forall progs g, reachable (lru_code D mx) (init lru_empty progs) g ->
+  (forall i, in_cs lru (op D) (lru_locked D) (g_cl g i) <-> g_lock g = Some i)
+  /\ (g_lock g = None ->
+      exists h : list (nat * op D), g_data g = st_from (lru_step mx) lru_empty h /\ lru_inv mx (g_data g))
+  /\ NoDup (map fst (l_dict (g_data g))) /\ length (l_dict (g_data g)) <= mx.
+Proof. exact lru_shared_inv. Qed.
+Print Assumptions C14_shared_lru_inv.
+
+(* exactly what the lock-free `k in cache` / `len(cache)` can return: the answer on a dict dd that is the dict
+   of a state of the sequential run with some keys deleted (none deleted if no operation was in progress) or
+   the dict of the next state of the run; always at most max_size entries *)
+Theorem C14_shared_lru_lockfree_values : forall D mx, 1 <= mx ->
+  forall (h : list (nat * op D)) x,
+  lockfree_ok lru (op D) (lru_step mx) (lru_locked D) (lru_read D) lru_vis lru_empty h x ->
+  lru_locked D (fst x) = false ->
+  exists n dd,
+    (sub dd (l_dict (st_from (lru_step mx) lru_empty (firstn n h)))
+     \/ dd = l_dict (st_from (lru_step mx) lru_empty (firstn (S n) h)))
+    /\ length dd <= mx
+    /\ snd x = match fst x with Mem k => OBool (amem k dd) | Len => OLen (length dd) | _ => ONone end.
+Proof. exact lru_lockfree_values. Qed.
+Print Assumptions C14_shared_lru_lockfree_values.
+
+(* the same four statements for HybridCache, for every arithmetic A *)
+Theorem C14_shared_hybrid_linearizable : forall (A : arith) (aw dw : num A) mx, 1 <= mx ->
+  forall progs g, reachable (hyb_code A aw dw mx) (init hyb_empty progs) g -> complete g ->
+  exists h : list (nat * op (num A)),
+    Forall (fun x => hyb_locked A (snd x) = true) h
+    /\ g_lock g = None
+    /\ g_data g = st_from (hyb_step A aw dw mx true) hyb_empty h
+    /\ forall i,
+         map fst (rev (c_done (g_cl g i))) = progs i
+         /\ filter (fun x => hyb_locked A (fst x)) (rev (c_done (g_cl g i)))
+            = SharedSteps.proj i (res_from (hyb_step A aw dw mx true) hyb_empty h)
+         /\ Forall (lockfree_ok (hyb A) (op (num A)) (hyb_step A aw dw mx true) (hyb_locked A) (hyb_read A)
+                                (hyb_vis A) hyb_empty h)
+                   (c_done (g_cl g i)).
+Proof. exact hyb_shared_linearizable. Qed.
+Print Assumptions C14_shared_hybrid_linearizable.
+
+Theorem C14_shared_hybrid_no_raise : forall (A : arith) (aw dw : num A) mx, 1 <= mx ->
+  forall progs g i, reachable (hyb_code A aw dw mx) (init hyb_empty progs) g ->
+  Forall (fun x => is_raised (snd x) = false) (c_done (g_cl g i)).
+Proof. exact hyb_shared_no_raise. Qed.
+Print Assumptions C14_shared_hybrid_no_raise.
+
+Theorem C14_shared_hybrid_inv : forall (A : arith) (aw dw : num A) mx, 1 <= mx ->
+  forall progs g, reachable (hyb_code A aw dw mx) (init hyb_empty progs) g ->
+  (forall i, in_cs (hyb A) (op (num A)) (hyb_locked A) (g_cl g i) <-> g_lock g = Some i)
+  /\ (g_lock g = None ->
+      exists h : list (nat * op (num A)),
+        g_data g = st_from (hyb_step A aw dw mx true) hyb_empty h /\ hyb_inv A mx (g_data g))
+  /\ NoDup (map fst (h_dict (g_data g))) /\ length (h_dict (g_data g)) <= mx.
+Proof. exact hyb_shared_inv. Qed.
+Print Assumptions C14_shared_hybrid_inv.
+
+Theorem C14_shared_hybrid_lockfree_values : forall (A : arith) (aw dw : num A) mx, 1 <= mx ->
+  forall (h : list (nat * op (num A))) x,
+  lockfree_ok (hyb A) (op (num A)) (hyb_step A aw dw mx true) (hyb_locked A) (hyb_read A) (hyb_vis A) hyb_empty h x ->
+  hyb_locked A (fst x) = false ->
+  exists n dd,
+    (sub dd (h_dict (st_from (hyb_step A aw dw mx true) hyb_empty (firstn n h)))
+     \/ dd = h_dict (st_from (hyb_step A aw dw mx true) hyb_empty (firstn (S n) h)))
+    /\ length dd <= mx
+    /\ snd x = match fst x with Mem k => OBool (amem k dd) | Len => OLen (length dd) | _ => ONone end.
+Proof. exact hyb_lockfree_values. Qed.
+Print Assumptions C14_shared_hybrid_lockfree_values.
+
+(* the sequential reading used above IS the sequential model run on the operations of h *)
+Theorem C14_shared_sequential_reading : forall S O (seq : S -> O -> S * out) (h : list (nat * O)) s,
+  st_from seq s h = final seq s (map snd h)
+  /\ map (fun x => snd (snd x)) (res_from seq s h) = run_ops seq s (map snd h).
+Proof. intros. exact (conj (st_from_final S O seq h s) (res_from_run_ops S O seq h s)). Qed.
+Print Assumptions C14_shared_sequential_reading.
+
+(* the schedule replay used by the correspondence (Run_C14.conc_small: `turn` = one pick of the harness' step
+   scheduler) only visits reachable states of the interleaving semantics *)
+Theorem C14_shared_replay_sound : forall S O (code : O -> prog S) fuel i g0 g,
+  reachable code g0 g -> reachable code g0 (turn code fuel i g).
+Proof. exact turn_reachable. Qed.
+Print Assumptions C14_shared_replay_sound.
